@@ -580,6 +580,8 @@ def s7(ctx, rep):
 
 
 def run(ctx, rep, tier="quick"):
+    from . import c16
+    c16.restore_unconditional(ctx, rep, "S2")     # the queue of initial configurations comes back as it was saved (shared with C16-S2)
     s1(ctx, rep)
     s2(ctx, rep)
     s3(ctx, rep)
